@@ -434,16 +434,24 @@ func (e *Engine) merge2(c *Term, a, b *State) *State {
 		if vb, ok := b.ghost[k]; ok {
 			if va == vb {
 				out.ghost[k] = va
+			} else if strings.HasPrefix(k, "file:") {
+				out.ghost[k] = mergeFiles(c, va.(*StructV), vb.(*StructV))
 			} else {
 				out.ghost[k] = mergeV(c, va, vb)
 			}
+		} else if strings.HasPrefix(k, "file:") {
+			out.ghost[k] = mergeFiles(c, va.(*StructV), absentFile())
 		} else {
 			out.ghost[k] = va
 		}
 	}
 	for k, vb := range b.ghost {
 		if _, ok := a.ghost[k]; !ok {
-			out.ghost[k] = vb
+			if strings.HasPrefix(k, "file:") {
+				out.ghost[k] = mergeFiles(c, absentFile(), vb.(*StructV))
+			} else {
+				out.ghost[k] = vb
+			}
 		}
 	}
 	if a.ret != nil || b.ret != nil {
@@ -1990,4 +1998,43 @@ func sortedKeys(m map[string]bool) []string {
 	}
 	sort.Strings(ks)
 	return ks
+}
+
+// mergeFiles merges two ghost file states (element-wise contents are padded to
+// the same capacity; mixed representations fall back to SMT arrays).
+func mergeFiles(c *Term, a, b *StructV) *StructV {
+	ea, aok := a.F[2].(*ArrayV)
+	eb, bok := b.F[2].(*ArrayV)
+	out := &StructV{F: []Value{Ite(c, a.F[0].(*Term), b.F[0].(*Term)), Ite(c, a.F[1].(*Term), b.F[1].(*Term)), nil}}
+	if aok && bok {
+		n := len(ea.E)
+		if len(eb.E) > n {
+			n = len(eb.E)
+		}
+		es := make([]Value, n)
+		for k := 0; k < n; k++ {
+			var x, y *Term = BVu(0, 8), BVu(0, 8)
+			if k < len(ea.E) {
+				x = ea.E[k].(*Term)
+			}
+			if k < len(eb.E) {
+				y = eb.E[k].(*Term)
+			}
+			es[k] = Ite(c, x, y)
+		}
+		out.F[2] = &ArrayV{E: es, T: ea.T}
+		return out
+	}
+	arr := func(v Value) *Term {
+		if t, ok := v.(*Term); ok {
+			return t
+		}
+		return fileState{elems: v.(*ArrayV)}.arrayOf()
+	}
+	out.F[2] = Ite(c, arr(a.F[2]), arr(b.F[2]))
+	return out
+}
+
+func absentFile() *StructV {
+	return &StructV{F: []Value{False(), BVu(0, 64), &ArrayV{T: types.Typ[types.Uint8]}}}
 }
